@@ -1870,12 +1870,24 @@ def rule_R4(ctx, world, tracer, reach, facts):
     prog = ctx.prog
     ctx.rule("R4", "completion order (as_completed) feeds only keyed storage and printing; wall-clock values flow only into the 'time' field, prints and the max_time break", 3)
     # ---- (a) completion order ----------------------------------------------------------------------
+    # a generator that walks as_completed(...) and yields hands the completion order on to whoever iterates it: its
+    # consumers are then judged like consumers of as_completed itself ({generator name: which yielded positions are
+    # carried in the chain's own result})
+    relays = {}
+    work = []
     for fi in world.scopes():
         if not (isinstance(fi, ModuleScope) or fi.qualname in reach):
             continue
         for n in world.own(fi):
-            if not (isinstance(n, ast.Call) and (world.qualify(n.func, fi.module) or "").endswith("futures.as_completed")):
-                continue
+            if isinstance(n, ast.Call) and (world.qualify(n.func, fi.module) or "").endswith("futures.as_completed"):
+                work.append((fi, n, None))
+    seen_work = set()
+    while work:
+        fi, n, carried = work.pop(0)
+        if (fi.qualname, id(n)) in seen_work:
+            continue
+        seen_work.add((fi.qualname, id(n)))
+        if True:
             p = world.parent(fi, n)
             inst = "%s: consumers of %s" % (fi.qualname, u(n))
             offenders = []
@@ -1905,7 +1917,12 @@ def rule_R4(ctx, world, tracer, reach, facts):
                         counters.add(u(x.target))
                     elif isinstance(x, ast.Assign) and len(x.targets) == 1 and isinstance(x.targets[0], ast.Subscript):
                         k = expand(tracer, x.targets[0].slice, fi)
-                        bad_key = ".result()" not in k or any(isinstance(y, ast.Call) and call_name(y) in ("len", "next", "count") for y in ast.walk(x.targets[0].slice))
+                        sl = x.targets[0].slice
+                        from_relay = False
+                        if carried is not None and isinstance(sl, ast.Name):
+                            tnames = [t.id if isinstance(t, ast.Name) else None for t in (p.target.elts if isinstance(p.target, ast.Tuple) else [p.target])]
+                            from_relay = sl.id in tnames and tnames.index(sl.id) < len(carried) and carried[tnames.index(sl.id)]
+                        bad_key = (".result()" not in k and not from_relay) or any(isinstance(y, ast.Call) and call_name(y) in ("len", "next", "count") for y in ast.walk(x.targets[0].slice))
                         if bad_key:
                             offenders.append("`%s` stores under %s, which is a function of completion order, not of the result" % (u(x)[:60], u(x.targets[0].slice)))
                     elif isinstance(x, ast.Assign) and any(isinstance(t, ast.Attribute) for t in x.targets):
@@ -1915,7 +1932,16 @@ def rule_R4(ctx, world, tracer, reach, facts):
                         root = r
                         while isinstance(root, (ast.Attribute, ast.Subscript)):
                             root = root.value
-                        if not (isinstance(root, ast.Name) and root.id in inner_names):
+                        if isinstance(root, ast.Name) and root.id == "__yielded" and getattr(fi.node, "_was_generator", False) and x.func.attr == "append" and len(x.args) == 1:
+                            elts = x.args[0].elts if isinstance(x.args[0], ast.Tuple) else [x.args[0]]
+                            relays[fi.name] = [".result()" in expand(tracer, e_, fi) for e_ in elts]
+                            for fi2 in world.scopes():
+                                if not (isinstance(fi2, ModuleScope) or fi2.qualname in reach):
+                                    continue
+                                for n2 in world.own(fi2):
+                                    if isinstance(n2, ast.Call) and call_name(n2).split(".")[-1] == fi.name and fi2 is not fi:
+                                        work.append((fi2, n2, relays[fi.name]))
+                        elif not (isinstance(root, ast.Name) and root.id in inner_names):
                             offenders.append("`%s` accumulates in completion order" % u(x)[:60])
                 for c in counters:
                     for x in world.own(fi):
